@@ -236,13 +236,46 @@ pub fn c17_set<const N: usize, const M: usize>() {
     vf::check(tok::balanced(), 302);
 }
 
+/// collecting a lazy set-algebra iterator into a SMALL set: under a lying Eq the iterator may yield more than its size_hint
+/// promised; the collection may panic, but must never hold more than its capacity or write outside itself
+pub fn c17_collect<const N: usize, const M: usize, const OP: u8>() {
+    tok::reset();
+    let a = liar_set::<N>();
+    let b = liar_set::<M>();
+    let which = OP; // one iterator kind per obligation
+    let panicked = {
+        let (sa, sb) = (&a.c, &b.c);
+        vf::catch(move || {
+            let mut g: Guarded<Set<Tok, 1>> = unsafe { vf::garbage() };
+            vf::assume(g.c.len() == 0);
+            g.lo = [LO; 2];
+            g.hi = [HI; 2];
+            match which {
+                0 => { g.c = sa.intersection(sb).cloned().collect(); }
+                1 => { g.c = sa.union(sb).cloned().collect(); }
+                2 => { g.c = sa.difference(sb).cloned().collect(); }
+                _ => { g.c = sa.symmetric_difference(sb).cloned().collect(); }
+            }
+            sane_set(&g);
+        })
+    };
+    if panicked { vf::reach(1); } else { vf::reach(2); }
+    sane_set(&a);
+    sane_set(&b);
+    drop(a);
+    drop(b);
+    vf::check(tok::no_excess(), 301); // a panicking collect may leak what it had cloned; nothing may die twice
+}
+
 harnesses! {
+    c17_collect: [2, 1, 0] [2, 1, 1];
     c17_insert: [0] [1] [2] [3];
     c17_remove: [1] [2] [3];
     c17_lookup: [1] [2] [3];
     c17_disjoint: [1, 2] [2, 2] [3, 2] [2, 3] [3, 3];
     c17_set: [1, 1] [2, 1] [1, 2];
     @deep
+    c17_collect: [2, 1, 2] [2, 1, 3] [2, 2, 0] [3, 1, 0];
     c17_two: [1] [2] [3];
     c17_insert: [4];
     c17_remove: [4];
